@@ -54,7 +54,7 @@ MIN_COUNTERS = {
                  "discipline_linearize_checked": 800, "check_jacobian_verdicts": 800, "step_given_at_call_cases": 25000,
                  "discipline_cases_with_cache_tolerance_above_the_step": 800},
 }
-SHARD_TIMEOUT = {"quick": 400, "thorough": 2400}
+SHARD_TIMEOUT = {"quick": 400, "thorough": 3000}
 
 EPS = np.finfo(float).eps
 CLS = {"fd": "FirstOrderFD", "cd": "CenteredDifferences", "cs": "ComplexStep"}
@@ -62,10 +62,10 @@ CLS = {"fd": "FirstOrderFD", "cd": "CenteredDifferences", "cs": "ComplexStep"}
 
 def shards(tier, seed):
     n = {"quick": 16, "thorough": 16}[tier]
-    per = {"quick": 1000, "thorough": 9000}[tier]
-    disc = {"quick": 20, "thorough": 130}[tier]
+    per = {"quick": 3000, "thorough": 100000}[tier]
+    disc = {"quick": 50, "thorough": 1200}[tier]
     return [{"seed": subseed(seed, "C16", i), "n_cases": per, "n_disc": disc,
-             "budget_s": {"quick": 200, "thorough": 1500}[tier]} for i in range(n)]
+             "budget_s": {"quick": 200, "thorough": 2200}[tier]} for i in range(n)]
 
 
 # --------------------------------------------------------------------------- generation
